@@ -210,7 +210,7 @@ Fixpoint call_closure (s : storage) (i : nat) (ver : N) (delta : N) (acc : list 
       | ADir =>
           let dh := (pack_dkey (N.of_nat i) (aid s), ver) in
           match call_closure s i ver delta rest with
-          | Some (o, s2, ds) => Some (o_handle dh ++ o, s2, ds)
+          | Some (o, s2, ds) => Some (o_handle dh ++ o, s2, dh :: ds)
           | None => None
           end
       end
